@@ -102,6 +102,49 @@ CHECKS["C11"] = dict(
     technique="deterministic simulation with fault injection: crash/KV-error enumeration + restart, durability oracle over acknowledged operations",
 )
 
+CHECKS["C14"] = dict(
+    level="exploration",
+    text="im world: a real device (rs-matter Interaction Model behind the real exchange/MRP/transport stack) serves a node composition generated per run "
+         "by an instrumented synthetic cluster handler (u32, octet strings and lists of octet strings with sizes concentrated at the chunk boundary; the real "
+         "root endpoint in part of the runs); raw-exchange controllers with the harness's own TLV codec read / subscribe with concrete and wildcard paths in "
+         "any order with repeats, data-version and event-number filters, and delay their StatusResponses. Faults: loss, duplication, delay, non-FIFO task "
+         "schedules, endpoints switched off/on and ACL entries removed between chunks. Oracles over the recorded chunks: every chunk is a well-formed "
+         "ReportData on its own (strict independent decoder), only the last lacks MoreChunkedMessages, lists are streamed at element boundaries and "
+         "reassemble to the original, each attribute/event selected by the reference model appears exactly as often as selected with the value the device "
+         "held, no datagram exceeds the transport maximum, every answer terminates. Limit: the transmit buffer size is a compile-time constant; the "
+         "boundary is reached through value sizes.",
+    design="DESIGN.md §4 C14",
+    technique="deterministic simulation with fault injection: seeded swarm search over compositions, sizes, schedules and network faults; history oracle against a reference expansion model",
+)
+
+CHECKS["C06"] = dict(
+    level="exploration",
+    text="im world with access declarations drawn per element (view/operate/manage/administer, write-only, timed-only, fabric-scoped), generated ACLs "
+         "for two fabrics, requesters over CASE sessions of either fabric and over PASE; reads, subscribes, writes and invokes with concrete / wildcard / "
+         "absent paths, with and without TimedRequest (in time, expired, mismatching flag), retransmitted and duplicated by the network, endpoints and ACL "
+         "entries removed while answers are in flight. Oracles: data and statuses equal the reference model (exists and matches and permitted) bracketed over "
+         "every composition/ACL state that existed during the interaction; the instrumented handler runs only for elements the model permits for that "
+         "requester and timed state, at most once per request element, never after the timed window known to the controller has run out. Limit: the "
+         "fabric-sensitive clause is delegated by rs-matter to the cluster handlers and is only exercised through the real ACL cluster of the root endpoint "
+         "in wildcard reads (no oracle on its field filtering).",
+    design="DESIGN.md §4 C06",
+    technique="deterministic simulation with fault injection: seeded swarm search over compositions, ACLs, requesters, timing and network faults; reference access model as oracle",
+)
+
+CHECKS["C13"] = dict(
+    level="exploration",
+    text="im world: 1-3 subscribers establish subscriptions (concrete and wildcard paths, events, min 0-5 s, max 10-120 s, slow StatusResponses stretching the "
+         "priming) while a device script changes attributes / clusters / endpoints / everything, emits events and produces bursts larger than the pending-change "
+         "table, triggered by time or by the n-th attribute read (i.e. inside a priming or report); faults: loss / duplication / delay, subscribers answering with "
+         "failure / garbage / nothing / late, session eviction (re-planted by the harness), a subscriber going dark. Oracles: after the faults stop and 2 x max "
+         "interval + 60 s, every subscription still in the device's table has delivered the final version of every selected attribute and every event emitted "
+         "since it was established; reports never start earlier than the minimum interval after the previous successful one; a report arrives at least every "
+         "maximum interval; a subscription whose reports keep failing leaves the table within max interval (+45 s) of its last success. Limit: device restart "
+         "with persisted subscriptions is not generated.",
+    design="DESIGN.md §4 C13",
+    technique="deterministic simulation with fault injection: seeded swarm search over change/priming/report interleavings, subscriber misbehaviour and network faults; eventual-consistency and timing oracles over the recorded history",
+)
+
 CHECKS["C01"] = dict(
     level="exploration",
     text="Real device commissioned by controller X; the device is crashed/restarted 2-5 times so that X runs new CASE handshakes (resumption first, "
